@@ -1,13 +1,82 @@
-(* C02 — pinned statements; proofs live in Proofs/. *)
-From NW Require Import Base.Bytes Model.SchemaTypes Gen.Schema Model.Codec Model.Ids Model.Server.
+(* C02 — Broadcast completeness: each eligible reader gets the payload once, intact.
+   Pinned statements (types pasted verbatim from the proved lemmas by tools/pin.py); proofs in Proofs/Server*.v. *)
+From NW Require Import Base.Bytes Model.SchemaTypes Gen.Schema Model.Codec Model.MsgInfo Model.Ids Model.Server.
+From NW Require Import Proofs.ServerLib Proofs.ServerRoute Proofs.ServerHandlers Proofs.ServerSteps Proofs.ServerPhases.
+From NW Require Import Proofs.ServerInvBase Proofs.ServerInv Proofs.ServerUniq Proofs.ServerInvCor.
+From NW Require Import Proofs.ServerDelivery Proofs.ServerEvents Proofs.ServerIdentity.
 
-(* the model computes: a client connects, identifies and creates a channel *)
-Example C02_model_smoke :
-  let cfg := {| domain := bs "localhost"; has_mod := false; op_auth := false; op_fbp := false; op_fev := false; op_spp := false;
-                proto := []; max_clients := 10; max_subs := 10; max_payload_cfg := 1024; max_inflight := 10; max_message := 1024;
-                keepalive := 60000; min_keepalive := 1000; max_conns := 16; pool_budget := 4194304 |} in
-  let s := run_state cfg init [Open 1; Bytes 1 (bs "CONNECT version=1 heartbeat_interval=0" ++ [NL]) [] [];
-                               Bytes 1 (bs "IDENTIFY username=alice" ++ [NL]) [] [];
-                               Bytes 1 (bs "JOIN id=1 channel=!c1@localhost" ++ [NL]) [] []] in
-  map fst (chans s) = [bs "c1"] /\ map fst (router s) = [bs "alice"].
-Proof. vm_compute. split; reflexivity. Qed.
+Theorem C02_complete_exactly_once :
+  forall (cfg : scfg) (h : N) (req : msg) (p : option (list N)) (c : ctx) 
+      (cn : conn) (me : nid) (d : list out),
+    Inv cfg (st c) ->
+    nlookup h (conns (st c)) = Some cn ->
+    c_phase cn = Authenticated ->
+    c_nid cn = Some me ->
+    is_kind req "BROADCAST" = true ->
+    outs (on_frame cfg h req p c) = outs c ++ d ->
+    (exists (ack : msg) (pa : option (list N)),
+       In (OSend h ack pa) d /\ is_kind ack "BROADCAST_ACK" = true) ->
+    let q := eff_payload cfg (payload_of p) (script c) in
+    exists (hd : str) (ch : chan),
+      chan_parse (get_str req "channel") = Some (hd, domain cfg) /\
+      alookup hd (chans (st c)) = Some ch /\
+      nmem me (ch_members ch) = true /\
+      acl_allowed (ch_pub ch) me = true /\
+      N.of_nat (Datatypes.length q) <= ch_max_payload ch /\
+      (has_mod cfg = true ->
+       head_outcome (script c) <> MInvalid /\ head_outcome (script c) <> MErr) /\
+      (forall (n : nid) (hs : list N) (h' : N),
+       nmem n (ch_members ch) = true ->
+       acl_allowed (ch_read ch) n = true ->
+       alookup (nu n) (router (st c)) = Some hs ->
+       In h' hs -> h' <> h -> deliveries h' d = [(message_for me req q, q)]) /\
+      (forall h' : N, (Datatypes.length (deliveries h' d) <= 1)%nat) /\
+      deliveries h d = [] /\
+      (forall (h' : N) (m' : msg) (q' : list N),
+       In (OSend h' m' (Some q')) d -> m' = message_for me req q /\ q' = q /\ h' <> h) /\
+      st (on_frame cfg h req p c) = st c.
+Proof. exact C02_completeness. Qed.
+
+Theorem C02_complete_whole_step :
+  forall (cfg : scfg) (s : state) (h : N) (req : msg) (p : option (list N))
+      (sc : list moutcome) (hi : list (str * nid)) (s' : state) (os : list out) 
+      (cn : conn) (me : nid),
+    Inv cfg s ->
+    step cfg s (Frame h req p sc hi) = (s', os) ->
+    nlookup h (conns s) = Some cn ->
+    c_phase cn = Authenticated ->
+    c_nid cn = Some me ->
+    is_kind req "BROADCAST" = true ->
+    (exists (ack : msg) (pa : option (list N)),
+       In (OSend h ack pa) os /\ is_kind ack "BROADCAST_ACK" = true) ->
+    let q := eff_payload cfg (payload_of p) sc in
+    exists (hd : str) (ch : chan),
+      chan_parse (get_str req "channel") = Some (hd, domain cfg) /\
+      alookup hd (chans s) = Some ch /\
+      nmem me (ch_members ch) = true /\
+      acl_allowed (ch_pub ch) me = true /\
+      (forall (n : nid) (hs : list N) (h' : N),
+       nmem n (ch_members ch) = true ->
+       acl_allowed (ch_read ch) n = true ->
+       alookup (nu n) (router s) = Some hs ->
+       In h' hs -> h' <> h -> deliveries h' os = [(message_for me req q, q)]) /\
+      (forall h' : N, (Datatypes.length (deliveries h' os) <= 1)%nat) /\
+      deliveries h os = [] /\
+      (forall (h' : N) (m' : msg) (q' : list N),
+       In (OSend h' m' (Some q')) os -> m' = message_for me req q /\ q' = q /\ h' <> h).
+Proof. exact C02_completeness_step. Qed.
+
+Theorem C02_each_connection_once :
+  forall (cfg : scfg) (m : msg) (p : option (list N)) (targets : list nid) 
+      (excl : option N) (c : ctx),
+    NoDup targets ->
+    router_wf (router (st c)) ->
+    exists hs : list N,
+      NoDup hs /\
+      new_outs c (route cfg m p targets excl c) = map (fun h : N => OSend h m p) hs /\
+      (forall h : N, excl = Some h -> ~ In h hs).
+Proof. exact broadcast_each_once. Qed.
+
+Theorem C02_router_wellformed :
+  forall (cfg : scfg) (s : state), Inv cfg s -> router_wf (router s).
+Proof. exact inv_router_wf. Qed.
